@@ -173,6 +173,7 @@ type SpecFile struct {
 	Lemmas  []*Lemma
 	Axioms  []*Lemma
 	Immut   []string // immutable T.f declarations ("T.f")
+	Regexes []*RegexDecl
 	RawText string
 }
 
@@ -310,7 +311,7 @@ var clauseKeywords = map[string]bool{
 	"requires": true, "ensures": true, "establishes": true, "modifies": true, "loop": true, "at": true,
 	"property": true, "nopanic": true, "reveal": true, "pure": true, "func": true,
 	"ghost": true, "lemma": true, "axiom": true, "extern": true, "fresh": true,
-	"maypanic": true, "inline": true, "boundary": true, "immutable": true, "bounded": true, "opaque": true, "pathflag": true,
+	"maypanic": true, "regex": true, "inline": true, "boundary": true, "immutable": true, "bounded": true, "opaque": true, "pathflag": true,
 }
 
 func (p *parser) parseExpr(minPrec int) (Expr, error) {
@@ -737,6 +738,24 @@ func (p *parser) parseFile() (*SpecFile, error) {
 				return nil, err
 			}
 			sf.Immut = append(sf.Immut, tn+"."+p.next().s)
+		case "regex":
+			// regex <var> [Cxx] == `reference pattern`: the code's pattern denotes the reference language
+			p.next()
+			start := p.peek().pos
+			rd := &RegexDecl{Var: p.next().s}
+			if p.isOp("[") {
+				rd.Props, _ = p.parseClauseTag()
+			}
+			if err := p.expectOp("=="); err != nil {
+				return nil, err
+			}
+			t := p.next()
+			if t.kind != "str" {
+				return nil, p.errf("regex: expected a pattern string")
+			}
+			rd.Ref = t.s
+			rd.Text = p.textSince(start)
+			sf.Regexes = append(sf.Regexes, rd)
 		case "lemma", "axiom":
 			p.next()
 			start := p.peek().pos
